@@ -44,6 +44,11 @@ CHECKS = {
         note="Trusted: RefCollection (BTreeMap + direct evaluator; text order = byte order; a record without a value is `not equal` to a value). Operations the statement leaves open are not generated (duplicate create, update/delete of absent ids, range operators on text, paging without a total order). Collections are reached through hook H1 on engines built with and without the SQLite plugin.",
         technique="deterministic simulation harness used as a seeded history generator against a reference collection, with close/reopen faults",
         ref="DESIGN.md §6 C10"),
+    "C11": dict(
+        text="Seeded search over generated models (control flow, catches, generated acts, set/code acts writing variables of enclosing scopes, env at start and from scripts) x clients using all action kinds x both store backends x schedules: at every quiescent point the live process (hook H1, cache only, never loads) is compared field by field with its process row and task rows (task set, state, prev, data, err, times; process state, err, env). Sampling: evidence, not proof.",
+        note="Trusted: hook H1 reads the cache without loading; rows are read from the backing collections directly. Compared only at quiescent points (the statement's scope).",
+        technique="deterministic simulation: exact quiescence detection, live-vs-stored image comparison at every quiescent point",
+        ref="DESIGN.md §6 C11"),
     "C15": dict(
         text="Seeded search over parent/child(/grandchild) models, child endings (completed, error, aborted, missing model) and interleavings of the child's return with other parent activity: the calling act is open at every quiescent point before the child's terminal event, closed exactly once afterwards with the prescribed state/data/error, the child's inputs equal the call's options, the successor starts once and only after the call is closed, the parent's terminal event is generated after the child's. Sampling: evidence, not proof.",
         note="Trusted: H1 live dumps at quiescent points, id shim for event generation order. Child ending `skipped` is not reachable through client actions and is not generated.",
